@@ -238,6 +238,7 @@ class Sub:
     exhaustive_flag: bool = False  # set True if this sub enumerates a finite domain completely
     in_parent: bool = False  # run in the parent process (needed when the check spawns its own pools)
     hidden: bool = False  # not run by the main loop (executed by another sub-check, e.g. in fresh interpreters)
+    ambient: bool = True  # cases may carry an ambient history (mzverif/prelude.py): earlier, unrelated uses of the library in this process
 
 
 # ----------------------------------------------------------------------------------------------
@@ -315,6 +316,47 @@ class TempDir:
 
 
 # ----------------------------------------------------------------------------------------------
+# ambient history (see mzverif/prelude.py)
+# ----------------------------------------------------------------------------------------------
+
+AMBIENT = os.environ.get("VERIF_AMBIENT", "1") != "0"
+AMBIENT_EVERY = 61  # enumerated cases: every 61st case of a shard is preceded by a prelude derived from its digest
+
+
+def split_case(case: Any):
+    """(prelude | None, the case the check sees)"""
+    if isinstance(case, dict) and "__prelude__" in case and "__case__" in case:
+        return case["__prelude__"], case["__case__"]
+    return None, case
+
+
+def run_case(sub: "Sub", case: Any):
+    """interpret a case: its ambient history first (earlier uses of the library in this process; never asserted on), then the check"""
+    pre, inner = split_case(case)
+    if pre:
+        from mzverif import prelude
+
+        prelude.run(pre)
+    info = sub.check(inner)
+    if pre:
+        info = dict(info or {})
+        info["labels"] = list(info.get("labels", ())) + ["ambient-history"]
+    return info
+
+
+def with_ambient(sub: "Sub", case: Any, rate: int = 6):
+    """about one case in `rate` is preceded by one or two earlier uses of the library - a pure function of the case's digest"""
+    if not (AMBIENT and sub.ambient):
+        return case
+    d = digest(case)
+    if d % rate:
+        return case
+    from mzverif import prelude
+
+    return {"__prelude__": prelude.from_digest(d // rate), "__case__": case}
+
+
+# ----------------------------------------------------------------------------------------------
 # workers
 # ----------------------------------------------------------------------------------------------
 
@@ -323,7 +365,7 @@ def _guarded(sub: Sub, case: Any, stats: Stats, fails: dict) -> None:
     """run one case; collect (not raise) violations for exhaustive runs"""
     reset_globals()
     try:
-        info = sub.check(case)
+        info = run_case(sub, case)
     except Discard:
         stats.discarded += 1
         return
@@ -332,7 +374,7 @@ def _guarded(sub: Sub, case: Any, stats: Stats, fails: dict) -> None:
             if not raised_in_library(v):
                 raise
             v = as_violation(v, _CURRENT_PROP)
-        if _known_match(v.sig, case):
+        if _known_match(v.sig, split_case(case)[1]):
             stats.excluded_known += 1
             return
         lst = fails.setdefault(v.sig, [])
@@ -346,13 +388,17 @@ def _guarded(sub: Sub, case: Any, stats: Stats, fails: dict) -> None:
                 lst[big] = f
         stats.evaluations += 1
         return
-    stats.record(case, info)
+    stats.record(split_case(case)[1], info)
 
 
 def _exhaustive_shard(sub: Sub, shard: int, nshards: int):
     stats = Stats()
     fails: dict = {}
+    k = 0
     for case in sub.cases(shard, nshards):
+        k += 1
+        if k % AMBIENT_EVERY == 0:
+            case = with_ambient(sub, case, rate=1)
         _guarded(sub, case, stats, fails)
     return stats, [f for lst in fails.values() for f in lst]
 
@@ -365,8 +411,9 @@ def _hypothesis_shard(sub: Sub, shard: int, seed_base: int):
 
     def body(case):
         reset_globals()
+        case = with_ambient(sub, case)
         try:
-            info = sub.check(case)
+            info = run_case(sub, case)
         except Discard:
             stats.discarded += 1
             return
@@ -375,12 +422,12 @@ def _hypothesis_shard(sub: Sub, shard: int, seed_base: int):
                 if type(v).__module__.startswith("hypothesis") or not raised_in_library(v):
                     raise
                 v = as_violation(v, _CURRENT_PROP)
-            if _known_match(v.sig, case):
+            if _known_match(v.sig, split_case(case)[1]):
                 stats.excluded_known += 1
                 return
             last["f"] = Failure(sub.name, v.sig, v.msg, json.loads(canon(case)))
             raise v
-        stats.record(case, info)
+        stats.record(split_case(case)[1], info)
 
     phases = [Phase.generate, Phase.shrink]
     st = settings(
@@ -405,7 +452,7 @@ def _hypothesis_shard(sub: Sub, shard: int, seed_base: int):
             f = last["f"]
             try:
                 reset_globals()
-                sub.check(f.case)
+                run_case(sub, f.case)
             except Violation as v:
                 return stats, [Failure(sub.name, v.sig, v.msg, f.case)]
             except (Discard, Exception):  # noqa: BLE001
@@ -551,7 +598,7 @@ def run_property(mod, tier: str) -> int:
         saved, _KNOWN_ACTIVE = _KNOWN_ACTIVE, []
         try:
             reset_globals()
-            sub.check(stored["case"])
+            run_case(sub, stored["case"])
             failed = None
         except Discard:
             failed = None
@@ -706,7 +753,7 @@ def run_replay(mod, path: str) -> int:
     sub = checks[stored["sub"]]
     try:
         reset_globals()
-        sub.check(stored["case"])
+        run_case(sub, stored["case"])
     except Discard:
         print(f"replay {path}: case discarded by precondition")
         return 0
